@@ -51,6 +51,7 @@ def check_C07(tier):
     calls = sum(1 for _ in open(olog)) if os.path.exists(olog) else 0
     return kit.finish("C07", tier, t0, design, [v],
         extra_cov={"oracle_calls": calls, "iterations_histogram": st.get("iterations_histogram"),
+                   "boundary_searches": {k: st.get(k) for k in ("keygen_caddq_boundary_seeds", "challenge_stream_bytes_used_max", "uniform_boundary_streams")},
                    "rule": "seeded (seed, message): key generation and signing recomputed by TLC from DilithiumEq.tla with SHAKE as an oracle (standard library in a helper process): COMPLETE: KeyGen_spec(seed) gives the public and secret key bytes; Sign_spec(sk, message) is run iteration by iteration (y, w = A y through the NTT-domain matrix, w1, c~ = H(mu || pack(w1)), c, z, the three exact norms, all hints), every iteration must leave through the logged exit and the accepted one must give the signature bytes; 1500+ loop events decide every exit from exact norms (tests met with equality are counted); repeated signing in other call orders; the six samplers on boundary streams"},
         assumptions=["SHAKE-128/256 are trusted (golang.org/x/crypto/sha3 called directly by cmd/hashtool)",
                      "inputs (seeds, messages) are sampled; every sampled key and signature is recomputed completely",
@@ -65,19 +66,22 @@ def judge_sharded_oracle(label, module, cfg, trace, env, expect, shards, heavy=(
     hv = [i for i, l in enumerate(lines) if any(h in l[:40] for h in heavy)]
     light = [i for i in range(n) if i not in set(hv)]
     groups = [[i] for i in hv] + ([light] if light else [])
-    def one(gi):
+    def one(gi, pth=None, sub=""):
         idxs = groups[gi]
-        pth = "%s.g%d" % (trace, gi)
-        with open(pth, "w") as f:
-            f.writelines(lines[i] for i in idxs)
+        if pth is None:
+            pth = "%s.g%d" % (trace, gi)
+            with open(pth, "w") as f:
+                f.writelines(lines[i] for i in idxs)
         e = dict(env)
         # events of one key refer to that key's table (field "plan")
         m = re.search(r'"plan":(\d+)', lines[idxs[0]][-40:] + lines[idxs[0]][:4000])
         if m and os.path.exists(env["VERIF_TABLE"] + ".p" + m.group(1)) and len({re.search(r'"plan":(\d+)', lines[i][-40:] + lines[i][:4000]).group(1) for i in idxs if re.search(r'"plan":(\d+)', lines[i][-40:] + lines[i][:4000])}) == 1:
             e["VERIF_TABLE"] = env["VERIF_TABLE"] + ".p" + m.group(1)
-        e["VERIF_ORACLE_REQ"] = env["VERIF_ORACLE_REQ"] + ".g%d" % gi
-        e["VERIF_ORACLE_RESP"] = env["VERIF_ORACLE_RESP"] + ".g%d" % gi
-        r = kit.judge("%s-g%d" % (label, gi), module, cfg, pth, env=e, expect_events=len(idxs), heap="6g", timeout=3000)
+        e["VERIF_ORACLE_REQ"] = env["VERIF_ORACLE_REQ"] + ".g%d%s" % (gi, sub)
+        e["VERIF_ORACLE_RESP"] = env["VERIF_ORACLE_RESP"] + ".g%d%s" % (gi, sub)
+        if sub:
+            return kit.judge("%s-g%d%s" % (label, gi, sub), module, cfg, pth, env=e, heap="6g", timeout=3000, _inner=True)
+        r = kit.judge("%s-g%d" % (label, gi), module, cfg, pth, env=e, expect_events=len(idxs), heap="6g", timeout=3000, _inner=len(idxs) == 1)
         return idxs, r
     with ThreadPoolExecutor(max_workers=min(len(groups), NCPU)) as ex:
         rs = list(ex.map(one, range(len(groups))))
@@ -92,4 +96,14 @@ def judge_sharded_oracle(label, module, cfg, trace, env, expect, shards, heavy=(
         raise Infra("trace %s not fully consumed" % label)
     v.update(label=label, trace=trace)
     log("[judge] %s: %d events in %d groups, %d violations (%.1fs TLC)" % (label, v["len"], len(groups), v["nviol"], v["tlc_wall"]))
+    if os.environ.get("VERIF_SELFTEST") and not v["nviol"]:
+        # heavy events (complete recomputations): one corruption per field of a few events, each judged alone
+        # with the table of its own key
+        import itertools
+        ctr = itertools.count()
+        for gi in [g for g in range(len(groups)) if len(groups[g]) == 1][:3]:
+            pth = "%s.g%d" % (trace, gi)
+            def jf(lab, p, exp, gi=gi):
+                return one(gi, pth=p, sub=".st%d" % next(ctr))
+            kit.selftest("%s-g%d" % (label, gi), module, cfg, pth, judge_fn=jf, batch=1, n=1, max_trials=6)
     return v
